@@ -323,6 +323,9 @@ def lib_plug():
         "pkgs": {
             "s1": {"name": "sock:one", "version": None, "imports": [("a", fA), ("b", fB), ("ns:p/i@0.2.0", Ix)], "exports": [("out", fA)]},
             "s2": {"name": "sock:two", "version": "1.0.0", "imports": [("ns:p/i@0.2.0", Ix), ("ns:p/i@0.2.1", Ix), ("ns:p/j@1.0.0", Iy)], "exports": [("out", fA), ("ns:q/o@1.0.0", Ixy)]},
+            # a middleware-shaped socket: imports and exports the same interface name, at a version
+            # HIGHER than what the plugs g3 / g4 offer on that track
+            "s3": {"name": "sock:three", "version": None, "imports": [("ns:p/i@0.2.5", Ix), ("b", fB)], "exports": [("ns:p/i@0.2.5", Ix), ("out", fA)]},
             "g1": {"name": "plug:g1", "version": None, "imports": [], "exports": [("a", fA)]},
             "g2": {"name": "plug:g2", "version": None, "imports": [], "exports": [("a", fB), ("b", fB)]},
             "g3": {"name": "plug:g3", "version": None, "imports": [], "exports": [("ns:p/i@0.2.1", Ixy)]},
@@ -336,7 +339,7 @@ def lib_plug():
         "def_names": [],
         "valid_names": ["k", "e1"],
         "deftypes": {},
-        "sockets": ["s1", "s2"],
+        "sockets": ["s1", "s2", "s3"],
         "plugs": ["g1", "g2", "g3", "g4", "g5", "g6"],
     }
 
